@@ -272,4 +272,50 @@ def runQuanta : Nat → InFlight → InFlight
 def runSchedule (sched : List Nat) (invs : List InFlight) : List InFlight :=
   sched.foldl (fun st i => st.modify i stepInv) invs
 
+/-! ### what an attempt produces, before it is classified
+
+The `try/except` chain of `Retry.__call__` looks at an attempt's product only through `isinstance` tests (in the
+order of the `except` clauses), `e.status_code == 408` and the truthiness of `return_value.get("success", True)`.
+`Raw` is the product with everything else it carries — what the error *says* (message, Elasticsearch error type,
+response body) is the opaque `what`; nothing in the chain may depend on it, nor on what earlier attempts produced. -/
+
+/-- the `isinstance` facts of a raised exception object (any class, also one that inherits from several of these) -/
+structure Facts where
+  sockTimeout : Bool      -- isinstance(e, socket.timeout)            (= builtin TimeoutError)
+  connError : Bool        -- isinstance(e, elasticsearch.exceptions.ConnectionError)
+  apiError : Bool         -- isinstance(e, elasticsearch.ApiError)
+  connTimeout : Bool      -- isinstance(e, elasticsearch.exceptions.ConnectionTimeout)
+  transportError : Bool   -- isinstance(e, elastic_transport.TransportError)
+deriving Repr, DecidableEq
+
+inductive Raw
+  /-- the delegate returned: is it a dict, and `"success"` absent (`none`) / its truthiness -/
+  | value (isDict : Bool) (success : Option Bool) (what : Nat)
+  /-- the delegate raised: class facts, `e.status_code` (read only for API errors), what the error says -/
+  | exc (f : Facts) (status : Nat) (what : Nat)
+deriving Repr, DecidableEq
+
+/-- the clause of the `try/except` chain that takes the product — **first matching `except` clause wins** -/
+def Raw.kind : Raw → Kind
+  | .value false _ _ => .nonDict
+  | .value true none _ => .dictOk                       -- `.get("success", True)`
+  | .value true (some b) _ => if b then .dictOk else .dictFail
+  | .exc f status _ =>
+    if f.sockTimeout then .sockTimeout                  -- except (socket.timeout, ConnectionError)
+    else if f.connError then .connError
+    else if f.apiError then (if status = 408 then .api408 else .apiOther)   -- except ApiError
+    else if f.connTimeout then .connTimeout             -- except ConnectionTimeout
+    else if f.transportError then .transportOther       -- not caught
+    else .otherExc
+
+/-- a script of raw products, each with the tag that stands for the object's identity -/
+def rawOutcomes (rs : List (Raw × Nat)) : List Outcome := rs.map (fun r => ⟨r.1.kind, r.2⟩)
+
+def retryRaw (p : Params) (rs : List (Raw × Nat)) : Run := retry p (rawOutcomes rs)
+
+/-- the same product saying something else -/
+def Raw.withWhat : Raw → Nat → Raw
+  | .value d s _, w => .value d s w
+  | .exc f st _, w => .exc f st w
+
 end Retry
